@@ -211,4 +211,55 @@ Proof.
   - exfalso. eapply (fs_no_panic D); eauto.
 Qed.
 
+(** ** The final directory does not depend on the schedule
+
+    Once every call has returned, the keys present are exactly the initial
+    ones and those returned by successful calls (this is what lets the
+    harness compare a free-running execution with a sequential one). *)
+
+Lemma In_lookup_key {A} k (a : A) l : In (k, a) l -> lookup_key k l <> None.
+Proof.
+  induction l as [|[k' a'] r IH]; [intros []|].
+  intros [E|Hin]; cbn.
+  - injection E as -> ->. now rewrite bytes_eqb_refl.
+  - destruct (bytes_eqb k k'); [discriminate|auto].
+Qed.
+
+Theorem fs_final_keys : forall objs0 inputs sched k,
+  wf_objs D objs0 ->
+  all_done (runs objs0 inputs sched) ->
+  (lookup_key k (objs (sfs (runs objs0 inputs sched))) <> None <->
+   lookup_key k objs0 <> None \/
+   exists tid t, nth_error (sthr (runs objs0 inputs sched)) tid = Some t /\ res t = Some (ROk k)).
+Proof.
+  intros objs0 inputs sched k Hwf Hdone. split.
+  - intros Hl. destruct (lookup_key k (objs (sfs (runs objs0 inputs sched)))) as [c|] eqn:El; [|congruence].
+    destruct (fs_objects_provenance D _ _ _ _ _ Hwf El) as [Hin|(tid & t & s0 & Ht & _ & _ & _ & _ & Hr)].
+    + left. eapply In_lookup_key; eauto.
+    + right. exists tid, t. split; [assumption|].
+      destruct (res t) as [r|] eqn:Er.
+      * now rewrite (Hr r eq_refl).
+      * exfalso. apply (Hdone t); [eapply nth_error_In; eauto|assumption].
+  - intros [Hl|(tid & t & Ht & Hr)].
+    + destruct (lookup_key k objs0) as [c|] eqn:El; [|congruence].
+      pose proof (fs_objects_stable D objs0 inputs [] sched k c Hwf) as Hs.
+      cbn [app] in Hs. rewrite Hs; [discriminate|exact El].
+    + assert (Hlt : tid < length (sthr (runs objs0 inputs sched))) by (apply nth_error_Some; congruence).
+      pose proof (inv_run D objs0 inputs sched Hwf) as I.
+      destruct (nth_error inputs tid) as [s0|] eqn:Ei.
+      2:{ apply nth_error_None in Ei. rewrite <- (inv_len _ _ _ _ I) in Ei. lia. }
+      destruct (fs_create_result D _ _ _ _ _ _ _ Hwf Ht Ei Hr) as (_ & _ & _ & _ & c & Hc & _).
+      congruence.
+Qed.
+
+(** a decidable sufficient condition for the hypothesis on the initial directory *)
+Definition wf_objsb (o : list (key * bytes)) : bool :=
+  forallb (fun kc => bytes_eqb (HK (snd kc)) (fst kc)) o.
+
+Lemma wf_objsb_sound o : wf_objsb o = true -> wf_objs D o.
+Proof.
+  unfold wf_objsb, wf_objs. rewrite forallb_forall. intros H k c Hl.
+  apply lookup_key_In in Hl. specialize (H _ Hl). cbn in H. now apply bytes_eqb_eq.
+Qed.
+
 End Live.
